@@ -144,7 +144,7 @@ def _jac_task(task, out):
     if task["kind"] == "jac_linear":
         variants = [("lin", shape, bias) for shape in ((6,), (2, 6), (2, 2, 6), (1, 2, 2, 6)) for bias in (True, False)]
     else:
-        variants = [("conv", (1, 2, 3, 3), True), ("conv", (2, 2, 2, 3), False)]
+        variants = [("conv", (1, 2, 3, 3), True), ("conv", (2, 2, 2, 3), False), ("conv", (2, 3, 3), True)]  # the last one is an un-batched (C,H,W) input
     for mk, xshape, bias in variants:
         for frozen in (False, True):
             fm = _mk_linear(dt, bias) if mk == "lin" else _mk_conv(dt, bias)
